@@ -101,13 +101,18 @@ class World:
         nc.createVariable("Vtransform", "i4", ())[...] = self.Vtransform
 
     def write_file(self, path, frames, storage="f8", time_units="seconds since 1970-01-01 00:00:00",
-                   scale=None, grid_vars=True):
+                   scale=None, grid_vars=True, time_scale=None):
         """frames: list of dict(t=<sec since epoch>, u=[N,jmax,imax-1], v=[N,jmax-1,imax], <extra>=[N,jmax,imax])."""
         path = Path(path)
         with Dataset(path, "w", format="NETCDF4") as nc:
             nc.createDimension("ocean_time", None)
             self.write_grid_vars(nc) if grid_vars else self.write_grid_vars_dims_only(nc)
-            tv = nc.createVariable("ocean_time", "f8", ("ocean_time",))
+            if time_scale:  # the time coordinate itself stored packed (integer * scale_factor), as compressing tools do
+                tv = nc.createVariable("ocean_time", "i4", ("ocean_time",))
+                tv.scale_factor = float(time_scale)
+                tv.set_auto_maskandscale(False)
+            else:
+                tv = nc.createVariable("ocean_time", "f8", ("ocean_time",))
             tv.units = time_units
             div = dict(seconds=1.0, hours=3600.0, days=86400.0, minutes=60.0)[time_units.split()[0]]
             base = tosec(np.datetime64(time_units.split("since")[1].strip().replace(" ", "T")))
@@ -126,7 +131,7 @@ class World:
                 vv.set_auto_maskandscale(False)
                 vars_[name] = vv
             for k, fr in enumerate(frames):
-                tv[k] = (fr["t"] - base) / div
+                tv[k] = (fr["t"] - base) / div if not time_scale else int(round((fr["t"] - base) / div / time_scale))
                 for name in ["u", "v", *extras]:
                     a = np.asarray(fr[name], float)
                     if storage == "i2":
